@@ -27,7 +27,16 @@ RULE = ("(a) fmatch: 20..80 beads in an orthorhombic box, LAMMPS dump with "
         "options file and an independent permutation of <bonded>/<cg_bonded>, "
         "0..2 of them dihedrals with fmatch.periodic on the whole circle at "
         "any position (keys fmatch/mixed-order/<kind>[-periodic]-<first|later>"
-        "/...); 20 % of all cases with --trj-force (known forces subtracted, "
+        "/...); family small-box (sub-families bond / angle / dihedral / "
+        "mixed, keys fmatch/small-box/<sub>/...): 3..6 chains of 4..5 beads "
+        "with bonds 0.34..0.50 nm in boxes whose edges are 2.3..3.2 times "
+        "0.5 nm, every bead wrapped into the cell individually, optional pair "
+        "interaction with a cutoff below half the box, up to 40 frames per "
+        "block; the oracle computes bonded forces from the unwrapped chains "
+        "(written digits + recorded image numbers) without any image "
+        "convention, counter small_box/dihedrals_r13_or_r24_beyond_half_edge; "
+        "25 % of the cases of the other families are written wrapped too; "
+        "20 % of all cases with --trj-force (known forces subtracted, "
         "cg.fmatch.dist set or not), 20 % with junk frames around the used ones "
         "and --first-frame/--nframes, 4 % with frames_per_block larger than "
         "the trajectory (documented error exit expected, no sanitizer "
